@@ -208,6 +208,9 @@ func ext4PrefixScenarios(cfg fatCfg, oracle string, depth int) []*fatScen {
 	lah := []fsOp{W("n2.bin", "0", "2c"), W("n4.bin", "0", "4c"), W("n1.bin", "0", "c"), {Kind: "append", Path: "k0.bin", Len: "2c"}, {Kind: "append", Path: "m7.bin", Len: "5c"}, {Kind: "mkdir", Path: "nd"},
 		{Kind: "remove", Path: "k3.bin"}, {Kind: "readpartial", Path: "k4.bin"}, {Kind: "reopen"}}
 	out = append(out, &fatScen{Name: "alignedholes", Cfg: cfg, Prefix: pa, Letters: lah, Depth: depth + 1, Oracle: oracle})
+	if oracle != "model" {
+		out = append(out, heldHandleScenario(cfg, oracle, depth))
+	}
 	// enospc: fill the volume
 	lfill := []fsOp{W("F1", "0", "p40"), W("F1", "0", "p70"), W("F2", "0", "p40"), W("F2", "0", "p70"), {Kind: "remove", Path: "F1"}, {Kind: "remove", Path: "F2"}, {Kind: "mkdir", Path: "DIR"}, {Kind: "create", Path: "DIR/x"}, {Kind: "reopen"}}
 	out = append(out, &fatScen{Name: "enospc", Cfg: cfg, Letters: lfill, Depth: depth, Oracle: oracle})
